@@ -97,6 +97,10 @@ structure Choice (K V : Type) where
   op : Option (COp K V) := none
   /-- which of the remaining keys the traversal reaches next (Range order is unspecified) -/
   pick : Nat := 0
+  /-- the item the traversal's bucket snapshot holds for that key (`none`: the key was not in the snapshot).
+  `Range` copies a whole bucket under its lock and visits the copies afterwards, so what the visitor sees may
+  be older than the current content; the model lets it be *anything* — the conditional delete re-checks. -/
+  seen : Option (Item V) := none
 
 variable {K V : Type} [DecidableEq K] [Inhabited V]
 
@@ -232,13 +236,13 @@ def tstep (_t : Tid) (g : G K V) (l : L K V) (c : Choice K V) : Option (G K V ×
   | .deReadCb => some (g, { l with pc := .deReadClock, ec := g.cb })
   | .deReadClock => some (g, { l with pc := .deVisit, passNow := g.now, todo := g.items.keys, queue := [] })
   | .deVisit =>
-    -- the traversal reaches some not yet visited key and sees its current item (if it is still there)
+    -- the traversal reaches some not yet visited key and sees the item its bucket snapshot holds for it
     match l.todo with
     | [] => some (g, { l with pc := .deFire })
     | k0 :: _ =>
       let k := l.todo.getD (c.pick % l.todo.length) k0
       let rest := l.todo.filter (· ≠ k)
-      match g.items.get k with
+      match c.seen with
       | some i =>
         if Gen.item_expiredWithNow i.e l.passNow then some (g, { l with pc := .deCompute, todo := rest, cur := some (k, i) })
         else some (g, { l with todo := rest })
